@@ -43,6 +43,10 @@ const (
 	sslRequestCode = 80877103
 	// byte size of the message length field
 	initMessageSizeLength = 4
+	// byte size of the request code or protocol version field
+	initMessageCodeLength = 4
+	// the largest startup packet a Postgres server accepts (MAX_STARTUP_PACKET_LENGTH)
+	maxStartupPacketLength = 10000
 )
 
 // Message provides readers for various types and
@@ -59,9 +63,14 @@ func (b *message) ReadUint32() (r uint32) {
 }
 
 func (b *message) ReadString() (r string) {
-	end := b.offset
 	maximum := uint32(len(b.data))
-	for ; end != maximum && b.data[end] != 0; end++ {
+	if b.offset >= maximum {
+		// nothing left to read
+		b.offset = maximum
+		return ""
+	}
+	end := b.offset
+	for ; end < maximum && b.data[end] != 0; end++ {
 	}
 	r = string(b.data[b.offset:end])
 	b.offset = end + 1
@@ -98,8 +107,12 @@ func (m *MatchPostgres) Match(cx *layer4.Connection) (bool, error) {
 		return false, err
 	}
 
-	// Get actual message length
-	data := make([]byte, binary.BigEndian.Uint32(head)-initMessageSizeLength)
+	// Get actual message length; it counts itself and must leave room for the code/version field
+	length := binary.BigEndian.Uint32(head)
+	if length < initMessageSizeLength+initMessageCodeLength || length > maxStartupPacketLength {
+		return false, nil
+	}
+	data := make([]byte, length-initMessageSizeLength)
 	if _, err := io.ReadFull(cx, data); err != nil {
 		return false, err
 	}
